@@ -35,7 +35,7 @@ pub fn spec_v_north(m: &[u32]) -> Option<i32> {
 
 /// Track in whole degrees [0,360) from an angle in radians as returned by atan2(Vew, Vns).
 pub fn spec_track_from_angle(a: f64) -> u32 {
-    let d = (a * 180.0 / core::f64::consts::PI).floor();
+    let d = a.to_degrees().floor(); // std's canonical radians->degrees conversion
     let mut t = d as i64;
     t = ((t % 360) + 360) % 360;
     t as u32
